@@ -46,6 +46,19 @@ Theorem C09_monotone :
 Proof. exact monotone. Qed.
 Print Assumptions C09_monotone.
 
+(* "provided the true total stays < 2^64", stated on the inputs only: if per counter the sum of all readings
+   appearing in the history is below 2^64, nothing wraps, hence the counters never go backwards *)
+Theorem C09_no_wrap_if_total_small :
+  forall evs, c4_lt_W (total_readings evs) -> lrun_wraps repaired sst0 evs = false.
+Proof. exact no_wrap_if_total_small. Qed.
+Print Assumptions C09_no_wrap_if_total_small.
+
+Theorem C09_monotone_total :
+  forall evs, c4_lt_W (total_readings evs) -> no_prune evs = true ->
+  nondecreasing c4z (outputs (snd (lrun repaired sst0 evs))) = true.
+Proof. exact monotone_total. Qed.
+Print Assumptions C09_monotone_total.
+
 (* one report, any session state: the cumulative returned is never below the last reported values *)
 Theorem C09_report_not_below_last :
   forall e sn, report_wraps repaired e sn = false -> c4_le (last e) (snd (report repaired e sn)).
@@ -90,6 +103,7 @@ Definition ex_hist : list sev :=
    EReleased (rd 6 9); EReleased (rd 6 9)].
 Example C09_nonvacuous :
   lrun_wraps repaired sst0 ex_hist = false /\ no_prune ex_hist = true /\
+  c4_leb (total_readings ex_hist) (C4 (W - 1) (W - 1) (W - 1) (W - 1)) = true /\
   map rxb (flat_map (fun o => match o with Interim c _ => [c] | Stop c => [c] | Start => [] end)
                     (outputs (snd (lrun repaired sst0 ex_hist)))) = [400; 1000; 1005; 1020; 1005; 1008; 1014] /\
   length (filter (fun o => match o with Start => true | _ => false end)
